@@ -159,13 +159,18 @@ def random_history(rng, profile):
     batches = rng.randint(2, 5)
     order = list(range(batches))
     rng.shuffle(order)
+    if profile in ("multifull", "kf_multinull"):
+        order = sorted(order, reverse=rng.random() < 0.5)       # value ranges of the segments in ascending or descending order
     pmiss = rng.choice([0.0, 0.0, 0.15, 0.4]) if profile != "nullstack" else 0.3
+    if profile in ("multifull", "kf_multinull"):
+        pmiss = 0.0
+    multi = profile in ("multi", "multifull", "kf_multinull")
     for b in order:
         batch = []
         for _ in range(rng.randint(1, 8)):
             if rng.random() < pmiss:
                 k = -1
-            elif profile == "nullstack":
+            elif profile in ("nullstack", "multifull", "kf_multinull"):
                 k = 2 * b + rng.randint(0, 1)                    # strictly disjoint ranges
             elif profile == "top":
                 k = rng.choice([0, TOP - 1, TOP])                # resolved to the two largest values of the pool
@@ -176,24 +181,40 @@ def random_history(rng, profile):
             else:
                 k = rng.randint(0, nk - 1)
             ops.append({"op": "add", "id": nid, "t": rng.choice("abc"), "k": k, "j": rng.choice([0, 1, 1, 2, 3, 3])})
+            if multi and k >= 0 and rng.random() < 0.5:
+                # a second value for the sort field (inside the range of the batch when the ranges are disjoint)
+                ops[-1]["k2"] = (2 * b + rng.randint(0, 1)) if profile != "multi" else rng.randint(0, nk - 1)
             batch.append((nid, k))
             nid += 1
             x = rng.random()
-            if profile == "nullstack":
+            if profile in ("nullstack", "multifull", "kf_multinull"):
                 continue
             if x < 0.12:
                 ops.append({"op": "del", "pred": {"k": "term", "t": rng.choice("abc")}})
             elif x < 0.2:
                 ops.append({"op": "del", "pred": {"k": "id", "id": rng.randint(1, nid - 1)}})
+        if profile == "multi":
+            # both ends of the value range in every segment: the ranges always overlap (k-way merge)
+            for kk in (0, nk - 1):
+                ops.append({"op": "add", "id": nid, "t": "c", "k": kk, "k2": kk, "j": 0})
+                nid += 1
+        if profile in ("multifull", "kf_multinull"):
+            # at least one document with two values: the column of the segment is multi-valued
+            ops.append({"op": "add", "id": nid, "t": "c", "k": 2 * b, "k2": 2 * b + 1, "j": 0})
+            nid += 1
+        if profile == "kf_multinull":
+            # ... and one document WITHOUT a value in that multi-valued segment (recorded finding F48)
+            ops.append({"op": "add", "id": nid, "t": "c", "k": -1, "j": 0})
+            nid += 1
         if profile == "nullstack":
             # delete documents WITH a value of a segment that also holds documents without one
             valued = [i for i, k in batch if k >= 0]
             for i in rng.sample(valued, min(len(valued), rng.randint(0, 3))):
                 ops.append({"op": "del", "pred": {"k": "id", "id": i}})
         ops.append({"op": "commit"})
-        if rng.random() < 0.25 and profile != "nullstack":
+        if rng.random() < 0.25 and profile not in ("nullstack", "multifull", "kf_multinull"):
             ops.append({"op": "merge", "from": rng.randint(0, 1), "n": 2})
-    if rng.random() < 0.6:
+    if rng.random() < 0.6 and profile not in ("multifull", "kf_multinull"):
         ops += [{"op": "del", "pred": {"k": "id", "id": rng.randint(1, nid - 1)}}, {"op": "commit"}]
     ops.append({"op": "merge"})
     if rng.random() < 0.3:
@@ -208,7 +229,7 @@ def concretise(ops, ty, order, pool, threads, flush_after, tag):
     keys = keys_of(ty, pool)
     n = len(keys)
     rk = lambda k: k if k < 0 else (n - 1 - (TOP - k) if k >= TOP - 1 else k % n)
-    ops2 = [dict(o, k=rk(o["k"])) if o["op"] == "add" else o for o in ops]
+    ops2 = [dict(o, k=rk(o["k"]), **({"k2": rk(o["k2"])} if "k2" in o else {})) if o["op"] == "add" else o for o in ops]
     return {"cfg": {"type": ty, "order": order, "threads": threads, "flush_after": flush_after}, "keys": keys, "ops": ops2, "tag": tag}
 
 
@@ -245,6 +266,43 @@ def tally(ctx, runs):
                 t["segments_with_reordered_documents"] += 1 if any(a > b for a, b in zip(ids, ids[1:])) else 0
 
 
+KF_F48 = ("merge of a sorted index stacks the segments although a MULTI-VALUED sort column holds documents without a value "
+          "(IndexMerger::segment_has_live_nulls only looks at Optional columns): in the merged segment the documents without a value "
+          "are not first (ascending) / last (descending)")
+
+
+def known_finding_f48(ctx):
+    """dedicated reproduction of the recorded finding F48 (the default profiles steer around it: multi-valued sort columns
+    either have overlapping ranges or no document without a value)"""
+    rng = random.Random(ctx.seed + 48)
+    hs = []
+    for j in range(2):
+        ops = random_history(rng, "kf_multinull")
+        for ty in ("u64", "i64", "f64", "date"):
+            for order in ("asc", "desc"):
+                hs.append(concretise(ops, ty, order, POOL12, 1, 0, f"kf_multinull{j}"))
+    runs = execute(ctx, hs, "kf_f48", timeout=600)
+    seen = False
+    for i, run in enumerate(runs):
+        p = ctx.path(f"kf_f48.{i}.ndjson")
+        vlib.write_ndjson(p, run)
+        ok, r = vlib.validate_trace(ctx, "SortedIndexTrace", "SortedIndexTrace.cfg", p, name=f"kf_f48.{i}", timeout=300)
+        if ok:
+            continue
+        line, why = tracecheck.violated_line(r)
+        evt = run[min(max(line - 1, 0), len(run) - 1)]
+        if evt.get("ev") == "merge":
+            keys = [[row[5][0] if row[5] else -1 for row in sg["docs"]] for sg in (evt.get("obs") or {}).get("segs", [])]
+            if not seen:
+                ctx.violation(KF_F48, [p], json.dumps({"cfg": run[0]["cfg"], "first_sort_value_per_document_of_the_merged_segment (-1 = none)": keys})[:3000])
+            seen = True
+        else:
+            ctx.violation(f"SortedIndexTrace: {why}", [p], json.dumps(evt)[:3000])
+    ctx.cov["kf_f48_reproduced"] = seen
+    if not seen:
+        log("[C17] note: the recorded finding F48 (stacking with nulls in a multi-valued sort column) did not reproduce")
+
+
 def sorted_driver_runs(ctx):
     rng = random.Random(ctx.seed)
     q = ctx.quick
@@ -262,7 +320,7 @@ def sorted_driver_runs(ctx):
     n_gen = len(hs)
     # T: seeded random histories (disjoint / overlapping / heavy ties), bigger value pools
     for j in range(4 if q else 60):
-        for profile in ("disjoint", "overlap", "ties", "nullstack", "top"):
+        for profile in ("disjoint", "overlap", "ties", "nullstack", "top", "multi", "multifull"):
             ops = random_history(rng, profile)
             for ty in TYPES:
                 for order in ("asc", "desc"):
@@ -427,6 +485,7 @@ def run(ctx):
                         "single-valued sort fields only (the documented requirement)"]
     model_checking(ctx)
     runs = sorted_driver_runs(ctx)
+    known_finding_f48(ctx)
     ev = world_runs(ctx)
     binding_selftest(ctx, runs, ev)
     r = next((r for r in runs if nontrivial(r) and r[0]["cfg"]["type"] == "str"), runs[0])
